@@ -1760,9 +1760,16 @@ func genC06Profile(r *Rng, forCLI bool) *profile.Profile {
 		p.Mapping = append(p.Mapping, &profile.Mapping{ID: uint64(i + 1), Start: st, Limit: st + 0x80000, File: c06Maps[r.Intn(len(c06Maps))], BuildID: []string{"", "abc123"}[r.Intn(2)]})
 	}
 	nf := 2 + r.Intn(7)
+	names, files := c06Names, c06Files
+	if r.Chance(30) {
+		// names and files that CONTAIN each other: an anchored expression (^run$, ^run, run$) must not
+		// behave like a substring search
+		names = []string{"run", "runner.start", "prerun", "run.x", "xrun", "main", "sa"}
+		files = []string{"run", "run.go", "prerun.go", "a.go", ""}
+	}
 	for i := 0; i < nf; i++ {
-		n := c06Names[r.Intn(len(c06Names))]
-		p.Function = append(p.Function, &profile.Function{ID: uint64(i + 1), Name: n, SystemName: n, Filename: c06Files[r.Intn(len(c06Files))], StartLine: int64(r.Intn(9))})
+		n := names[r.Intn(len(names))]
+		p.Function = append(p.Function, &profile.Function{ID: uint64(i + 1), Name: n, SystemName: n, Filename: files[r.Intn(len(files))], StartLine: int64(r.Intn(9))})
 	}
 	nl := 1 + r.Intn(8)
 	for i := 0; i < nl; i++ {
@@ -1855,6 +1862,10 @@ func genRx(r *Rng, names []string) string {
 	}
 	nm := func() string { return names[r.Intn(len(names))] }
 	q := regexp.QuoteMeta
+	if r.Chance(22) { // anchored literals: exact name, prefix, suffix
+		n := q(nm())
+		return []string{"^" + n + "$", "^" + n + "$", "^" + n, n + "$"}[r.Intn(4)]
+	}
 	if r.Chance(12) {
 		// the value must be compiled exactly as given: significant leading / trailing blanks, empty
 		// alternatives (an empty alternative matches everything)
@@ -2371,7 +2382,7 @@ func runC06Case(c *Ctx, cs c06Case) {
 }
 
 func runC06(c *Ctx) {
-	c.Res.Rule = "profiles with inlined multi-line locations, shared locations, unsymbolized locations, empty stacks, mapping files and labels with units; expressions from a grammar (literal, anchored, alternation, class, substring, match-all, match-none, case-insensitive; numeric ranges a, a:, :b, a:b with signs and units, key=…); streams: name filters (all 16 on/off combinations of focus/ignore/hide/show), focus=R/ignore=R partition, show_from (main stream = inputs satisfying the hypothesis of showFrom_spec_partial, the rest on the known-finding stream), tagshow/taghide, FilterSamplesByTag called directly with arbitrary predicates on the label sets (presence, value, range, negations / absence-style, all-values-below, number of keys, constant true/false, hash parity, nil) on profiles mixing labelled and completely unlabelled samples (kept set and the fm/im results against the documented rule), measurement.Scale, `pprof -proto` with 1–4 of the 9 filter options (plus a unit grid for tagfocus/tagignore: range forms a, a:, :a, a:b × unit pairs same/finer/coarser/none/unknown/cross-family × label values at, just below, just above and halfway between multiples of the coarser unit), `pprof -top` with and without -relative_percentages (which total the header reports), and `pprof -top`/`-traces`/`-tags` (label weights)/`-raw` through every granularity (default, functions, filefunctions, files, lines, addresses) and -noinlines with focus/ignore/hide/show expressions that match only a source file name, only a mapping name or only an inlined frame (kept samples and totals must be the rule's on the un-aggregated profile), and `pprof -proto`/-traces/-top with -tagroot/-tagleaf (one or several keys, string and numeric labels, absent keys) × every filter on profiles with sparse / huge location and function ids (the rule is evaluated on the stacks extended by the label pseudo frames; an error exit is a violation). non-trivial = some expression of the case matches at least one but not all locations in use (name/show_from/cli), some but not all label keys (tags), or the predicate selects some but not all samples (bytag); distinct by options + canonical profile"
+	c.Res.Rule = "profiles with inlined multi-line locations, shared locations, unsymbolized locations, empty stacks, mapping files and labels with units; expressions from a grammar (literal, anchored literals ^n$ / ^n / n$ over names and files that contain each other such as run / runner.start / prerun, alternation, class, substring, match-all, match-none, case-insensitive; numeric ranges a, a:, :b, a:b with signs and units, key=…); streams: name filters (all 16 on/off combinations of focus/ignore/hide/show), focus=R/ignore=R partition, show_from (main stream = inputs satisfying the hypothesis of showFrom_spec_partial, the rest on the known-finding stream), tagshow/taghide, FilterSamplesByTag called directly with arbitrary predicates on the label sets (presence, value, range, negations / absence-style, all-values-below, number of keys, constant true/false, hash parity, nil) on profiles mixing labelled and completely unlabelled samples (kept set and the fm/im results against the documented rule), measurement.Scale, `pprof -proto` with 1–4 of the 9 filter options (plus a unit grid for tagfocus/tagignore: range forms a, a:, :a, a:b × unit pairs same/finer/coarser/none/unknown/cross-family × label values at, just below, just above and halfway between multiples of the coarser unit), `pprof -top` with and without -relative_percentages (which total the header reports), and `pprof -top`/`-traces`/`-tags` (label weights)/`-raw` through every granularity (default, functions, filefunctions, files, lines, addresses) and -noinlines with focus/ignore/hide/show expressions that match only a source file name, only a mapping name or only an inlined frame (kept samples and totals must be the rule's on the un-aggregated profile), and `pprof -proto`/-traces/-top with -tagroot/-tagleaf (one or several keys, string and numeric labels, absent keys) × every filter on profiles with sparse / huge location and function ids (the rule is evaluated on the stacks extended by the label pseudo frames; an error exit is a violation). non-trivial = some expression of the case matches at least one but not all locations in use (name/show_from/cli), some but not all label keys (tags), or the predicate selects some but not all samples (bytag); distinct by options + canonical profile"
 	if c.Replay != "" {
 		var cs c06Case
 		if err := c.LoadReplay(&cs); err != nil {
